@@ -8,7 +8,7 @@ class Balance(V.Family):
     driver_pkg = "balance"
     monitor = ("BalanceTrace.tla", "BalanceTrace.cfg")
     step_keys = ("act", "S", "a", "b", "amt", "x", "d")
-    reset_keys = ("n", "scale", "src", "nf")
+    reset_keys = ("n", "scale", "src", "nf", "nl")
     assume = [
         "neo-go v0.107.0 compiler/VM/ledger/neotest are faithful to the production platform (transaction atomicity on FAULT, witness checks)",
         "the harness maps model values injectively to real script hashes/amounts; amounts are scaled by U in {1,1e12,2^64,2^200} and must divide exactly",
@@ -60,5 +60,42 @@ class Balance(V.Family):
                     scales=sorted(set(r["scale"] for r in trace_all if r["act"] == "reset")))
 
 
+def many_locks_pass(F, pid, seed):
+    """C09 only: 40 lock accounts, 37 of them expiring at ONE tick (a bound on the work of one tick, a page size, a counter
+    width would show here), judged by the same monitor with the 40-address configuration."""
+    import json
+    import os
+    binary, _ = V.go_build_test(F.driver_pkg)
+    out = os.path.join(V.scratch(), "trace_many.ndjson")
+    V.go_drive(binary, [dict(VERIF_OUT=out, VERIF_SCEN="", VERIF_SEED=seed, VERIF_NRAND=0, VERIF_SHARD=0, VERIF_NSHARD=1,
+                             VERIF_MANY="1")], timeout=600)
+    tr = V.read_trace(out)
+    flags, done, _ = V.tlc_monitor(F.monitor[0], "BalanceTraceMany.cfg", out, timeout=900)
+    if done != len(tr):
+        raise V.Inconclusive("many-locks pass: monitor consumed %s of %d lines" % (done, len(tr)))
+    by = {}
+    for r in tr:
+        by.setdefault(str(r["t"]), []).append(r)
+
+    def scenario_of(tid):
+        rs = by[str(tid)]
+        sc = {k: rs[0][k] for k in F.reset_keys if k in rs[0]}
+        sc["steps"] = [{k: r[k] for k in F.step_keys if k in r} for r in rs[1:]]
+        return sc
+    violations, _, drift = V.decide(pid, flags, tr, V.known_findings(), seed, scenario_of)
+    V.log("many-locks pass: %d steps with 40 lock accounts judged, %d flags" % (len(tr), len(flags)))
+    evp = os.path.join(V.EVID, pid + ".json")
+    if os.path.exists(evp):
+        ev = json.load(open(evp))
+        ev["coverage"]["many_locks_pass"] = dict(lock_accounts=40, expiring_at_one_tick=37, steps=len(tr), flags=len(flags), drift=drift)
+        ev["violations"] = ev.get("violations", 0) + len(violations)
+        json.dump(ev, open(evp, "w"), indent=1, sort_keys=True)
+    return 1 if violations else 0
+
+
 def run(pid, tier, seed, replay=None):
-    return V.run_family(Balance(), pid, tier, seed, replay)
+    F = Balance()
+    rc = V.run_family(F, pid, tier, seed, replay)
+    if rc == 0 and pid == "C09" and replay is None:
+        rc = many_locks_pass(F, pid, seed)
+    return rc
